@@ -176,7 +176,14 @@ class ExecutionContext:
                         case LinearIR.OpCode.SUB:
                             localScope[ref] = op1 - op2
                         case LinearIR.OpCode.DIV:
-                            localScope[ref] = op1 / op2
+                            if isinstance(instruction.Type, LinearIR.IntegerType):
+                                # Integer division truncates toward zero
+                                quotient = abs(op1) // abs(op2)
+                                if (op1 < 0) != (op2 < 0):
+                                    quotient = -quotient
+                                localScope[ref] = quotient
+                            else:
+                                localScope[ref] = op1 / op2
                         case LinearIR.OpCode.MUL:
                             localScope[ref] = op1 * op2
                         case LinearIR.OpCode.MOD:
